@@ -20,6 +20,7 @@ LEVEL = "exploration"
 
 ENTRIES = ["unmarshal", "irb_set_slice", "irb_clear_slice", "irb_set_btree", "irb_clear_btree", "frag_open",
            "api_import_set", "api_import_clear", "api_import_views", "http_import_set", "http_import_clear",
+           "api_import_env", "http_import_env",
            "api_query", "http_query", "api_msg", "http_msg", "gossip_msg", "gossip_merge"]
 
 
@@ -28,7 +29,8 @@ def run(ctx):
     ctx.rule = ("case = (entry point, abstract valid encoding [format, 1-3 containers of type array/bitmap/run, "
                 "op-log tail], 0-2 structured corruptions [named field := adversarial value | truncation at a "
                 "section boundary -1/0/+1 | unsorted/duplicate keys | op-tail damage]) or (entry point, PQL token "
-                "string / deep nest) or (entry point, message type byte, body class), enumerated by TLC from "
+                "string / deep nest) or (entry point, message type byte, body class) or (entry point, import request "
+                "envelope: view map absent/present, 0-2 views [name x data class], clear flag), enumerated by TLC from "
                 "spec/Malformed.tla: single corruptions exhaustively (BFS) within the tier's scope of shapes, "
                 "pairs by seeded simulation. Each case is materialised to bytes by the harness's own encoders and "
                 "submitted to the real code in a child process. distinct = distinct case record; non-trivial = "
